@@ -75,9 +75,12 @@ def period_index_rule(ctx: Ctx, rid: str):
         return "?"
     n_idx = 0
 
+    from .common import module_consts
+    mconst = module_consts(idxf.module)
+
     def _const(e):
         try:
-            return eval(compile(ast.Expression(e), "<const>", "eval"), {"__builtins__": {}})
+            return eval(compile(ast.Expression(e), "<const>", "eval"), {"__builtins__": {}}, dict(mconst))
         except Exception:
             return None
 
